@@ -201,3 +201,78 @@ func VerifPermissionTwin() {
 	symapi.Assume(q[0] == '/' && symapi.OneOf(q[1], "ab"))
 	symapi.Assert(u.ValidatePermission(q, PullRight), "twin-plus-matches-zero-segments")
 }
+
+// VerifPermissionSegments: the same decision at segment granularity, which reaches the
+// longer masks the byte-level harness cannot within its bound: a right of ITEMS items, each
+// of 1..NS one-byte segments (symbolic, from {a, b, B, +}) with an optional final '*',
+// against a path of 1..NS+1 one-byte segments (symbolic, from {a, b, A}), with optional
+// leading / trailing '/'.
+func VerifPermissionSegments() {
+	NS := symapi.Param("NS", 3)
+	ITEMS := symapi.Param("ITEMS", 1)
+	type item struct {
+		segs []byte
+		open bool
+	}
+	var items []item
+	right := ""
+	for k := 0; k < ITEMS; k++ {
+		var it item
+		n := symapi.IntRange("nseg", 1, NS)
+		s := ""
+		if symapi.Bool("lead") {
+			s = "/"
+		}
+		sg := symapi.String("pseg", n)
+		for i := 0; i < n; i++ {
+			symapi.Assume(symapi.OneOf(sg[i], "abB+"))
+			it.segs = append(it.segs, sg[i])
+			if i > 0 {
+				s += "/"
+			}
+			s += sg[i : i+1]
+		}
+		if symapi.Bool("open") {
+			it.open = true
+			s += "/*"
+		}
+		items = append(items, it)
+		if k > 0 {
+			right += ";"
+		}
+		right += s
+	}
+	nq := symapi.IntRange("nq", 1, NS+1)
+	q := symapi.String("qseg", nq)
+	path := "/"
+	for i := 0; i < nq; i++ {
+		symapi.Assume(symapi.OneOf(q[i], "abA"))
+		if i > 0 {
+			path += "/"
+		}
+		path += q[i : i+1]
+	}
+	if symapi.Bool("trail") {
+		path += "/"
+	}
+	want := false
+	for _, it := range items {
+		if nq < len(it.segs) || (nq > len(it.segs) && !it.open) {
+			continue
+		}
+		ok := true
+		for i, sg := range it.segs {
+			if sg != '+' && verifLower(sg) != verifLower(q[i]) {
+				ok = false
+			}
+		}
+		if ok {
+			want = true
+		}
+	}
+	u := &User{Name: "U", PullAccess: right}
+	u.init()
+	symapi.Assert(u.ValidatePermission(path, PullRight) == want, "permission-equals-segment-reference")
+	symapi.Assert(!u.ValidatePermission(path, PushRight), "other-right-not-granted")
+	symapi.Reach("end")
+}
